@@ -275,3 +275,92 @@ Proof.
     + intros q. rewrite memN_filter, memN_set_remove. rewrite (N.eqb_sym id q).
       destruct (memN q (tips s1)), (q =? id)%N, (memN q vs); reflexivity.
 Qed.
+
+(* ------------------------------------------------------------------ removeSubtree *)
+Lemma remove_pass_spec t : forall l, wf l ->
+  (forall q, find_blk q (fst (remove_pass t l)) =
+     option_map (fun y => if memN q (snd (remove_pass t l)) then with_st y (st_delete (bst y)) else y) (find_blk q l)) /\
+  (forall q, memN q (snd (remove_pass t l)) = true ->
+     exists y, find_blk q l = Some y /\
+       (q = t \/ exists p, bparent y = Some p /\ memN p (snd (remove_pass t l)) = true)) /\
+  (forall q, memN q (snd (remove_pass t l)) = true -> sub l t q = true).
+Proof.
+  induction l as [|x r IH]; intros W.
+  - simpl. repeat split; intros; discriminate.
+  - pose proof W as W0. destruct W as (Wr & Hx & Hp). destruct (IH Wr) as (A & B & C). clear IH.
+    simpl. destruct (remove_pass t r) as [o v] eqn:M. simpl in A, B, C.
+    assert (NV : memN (bid x) v = false).
+    { destruct (memN (bid x) v) eqn:E; auto. destruct (B _ E) as (y & Fy & _). congruence. }
+    set (visit := (bid x =? t)%N || (match bparent x with Some p => memN p v | None => false end && negb (deleted (bst x)))).
+    destruct visit eqn:V; simpl.
+    + split; [|split].
+      * intros q. destruct (N.eqb_spec (bid x) q) as [E|E].
+        -- subst q. rewrite N.eqb_refl. reflexivity.
+        -- rewrite (proj2 (N.eqb_neq q (bid x))); [|congruence]. simpl. apply A.
+      * intros q H. apply orb_true_iff in H. destruct H as [H|H].
+        -- apply N.eqb_eq in H. subst q. rewrite N.eqb_refl. exists x. split; auto.
+           unfold visit in V. apply orb_true_iff in V. destruct V as [V|V].
+           ++ left. apply N.eqb_eq in V. auto.
+           ++ right. apply andb_true_iff in V. destruct V as [V _].
+              destruct (bparent x) as [p|]; [|discriminate]. exists p. split; auto. rewrite V. apply orb_true_r.
+        -- destruct (B q H) as (y & Fy & K). exists y.
+           destruct (N.eqb_spec (bid x) q) as [E|E]; [congruence|]. split; auto.
+           destruct K as [K|(p & Pp & Mp)]; auto. right. exists p. split; auto. rewrite Mp. apply orb_true_r.
+      * intros q H. apply orb_true_iff in H. destruct H as [H|H].
+        -- apply N.eqb_eq in H. subst q.
+           unfold visit in V. apply orb_true_iff in V. destruct V as [V|V].
+           ++ apply N.eqb_eq in V. rewrite <- V. eapply sub_self. simpl. rewrite N.eqb_refl. reflexivity.
+           ++ apply andb_true_iff in V. destruct V as [V _].
+              destruct (bparent x) as [p|] eqn:Q; [|discriminate].
+              rewrite (sub_step (x :: r) t W0 (bid x) x p); [|simpl; rewrite N.eqb_refl; reflexivity|exact Q].
+              apply orb_true_iff. right. unfold sub. rewrite path_skip; [apply (C p V)|].
+              intros E. apply (wf_own_parent x r p W0 Q). auto.
+        -- destruct (B q H) as (y & Fy & _). unfold sub. rewrite path_skip; [apply (C q H)|]. congruence.
+    + split; [|split].
+      * intros q. destruct (N.eqb_spec (bid x) q) as [E|E].
+        -- subst q. rewrite NV. reflexivity.
+        -- apply A.
+      * intros q H. destruct (B q H) as (y & Fy & K). exists y.
+        destruct (N.eqb_spec (bid x) q) as [E|E]; [congruence|]. auto.
+      * intros q H. destruct (B q H) as (y & Fy & _). unfold sub. rewrite path_skip; [apply (C q H)|]. congruence.
+Qed.
+
+Theorem remove_subtree_tips_ok s id ord s' : Inv_flags s -> tips_ok (tkind s) (blocks s) (tips s) ->
+  remove_subtree s id ord = Done s' -> tips_ok (tkind s') (blocks s') (tips s') /\ tkind s' = tkind s.
+Proof.
+  intros I T. pose proof I as [W H F L]. unfold remove_subtree.
+  destruct (find_blk id (blocks s)) as [x|] eqn:Fx; [|discriminate].
+  destruct (deleted (bst x)) eqn:Dx; [discriminate|]. destruct (bparent x) as [pp|] eqn:Px; [|discriminate].
+  intros E. bind_inv E.
+  assert (S1 : cb_eq (tkind s) (blocks s) (blocks a) /\ tips a = tips s /\ fl_eq (blocks s) (blocks a)).
+  { destruct (on_chain s id).
+    - destruct (set_state_to_cb _ _ _ E0) as (C & Tp & _). destruct (set_state_to_fl _ _ _ W E0). auto.
+    - inversion E0; subst a. repeat split; auto using cb_eq_refl, fl_eq_refl, same_skel_refl. }
+  destruct S1 as (CB & Tp & FE).
+  destruct (inv_of_fl_eq _ _ I FE) as (W1 & _ & _ & _).
+  pose proof (tips_ok_cb _ _ _ _ W CB T) as T1. rewrite <- Tp in T1.
+  destruct (fl_eq_sym_flags _ _ FE id x Fx) as (x1 & Fx1 & _ & _ & _ & Kx & _).
+  assert (Px1 : bparent x1 = Some pp) by (unfold skel in Kx; congruence).
+  set (l := blocks a) in *.
+  destruct (remove_pass_spec id l W1) as (RA & RB & RC).
+  pose proof (remove_pass_fl_le id l) as RL.
+  destruct (remove_pass id l) as [l2 vs] eqn:M. simpl in RA, RB, RC, RL.
+  inversion E; subst s'; clear E.
+  assert (K2 : tips_ok (tkind s) l2 (try_add_tip (tkind s) l2 (filter (fun t => negb (memN t vs)) (tips a)) pp)).
+  { apply (tips_worsen (tkind s) l l2 (tips a) _ (fun q => memN q vs) pp); auto.
+    - apply fl_le_skel, RL.
+    - intros q Dq. rewrite RA, Dq. destruct (find_blk q l); reflexivity.
+    - intros q Dq. unfold cbt. rewrite RA, Dq. destruct (find_blk q l); simpl; auto.
+    - intros q y p Fq Dq Pq. destruct (RB q Dq) as (y' & Fy' & K). rewrite Fq in Fy'. inversion Fy'; subst y'.
+      destruct K as [->|(p' & Pp' & Mp')].
+      + right. rewrite Fx1 in Fq. inversion Fq; subst. congruence.
+      + left. congruence.
+    - destruct (memN pp vs) eqn:Vp; auto. exfalso.
+      specialize (RC pp Vp). rewrite (sub_parent_false l id W1 x1 pp Fx1 Px1) in RC. discriminate.
+    - intros q. apply memN_filter. }
+  destruct (on_chain s id); simpl; auto.
+  destruct (update_tips_blocks {| tkind := tkind s; blocks := l2;
+              tips := try_add_tip (tkind s) l2 (filter (fun t : N => negb (memN t vs)) (tips a)) pp;
+              tip := tip a; applied := applied a |} ord) as [UB UK].
+  rewrite UB, UK, update_tips_tips. simpl. auto.
+Qed.
